@@ -5,7 +5,9 @@ from . import store as S
 
 # the last package is NAMED like an output directory with other separators (<word>_task_<n>): directory-name patterns that
 # forget to escape their dots would take its cond-out directory for a version directory
-EXPS = [("", "a"), ("pk", "b"), ("pk/sub", "c"), ("", "d"), ("w_task_3", "w")]
+# (the last package carries the one name Conductor uses itself under cond-out that is also a legal package name: the staging
+# directory of `cond restore`)
+EXPS = [("", "a"), ("pk", "b"), ("pk/sub", "c"), ("", "d"), ("w_task_3", "w"), ("archive-tmp", "s")]
 
 
 def base_project(rng, git=False, with_args=True, extra_kinds=True):
@@ -13,10 +15,10 @@ def base_project(rng, git=False, with_args=True, extra_kinds=True):
     tasks = []
     shape = rng.randrange(4)
     deps = {
-        0: {"a": [], "b": ["//:a"], "c": ["//pk:b"], "d": [], "w": []},
-        1: {"a": [], "b": [], "c": [], "d": ["//:a"], "w": ["//:a"]},
-        2: {"a": [], "b": ["//:a"], "c": ["//:a", "//pk:b"], "d": ["//pk/sub:c", "//:a"], "w": []},
-        3: {"a": [], "b": ["//:cmd"], "c": ["//:grp"], "d": [], "w": []},
+        0: {"a": [], "b": ["//:a"], "c": ["//pk:b"], "d": [], "w": [], "s": []},
+        1: {"a": [], "b": [], "c": [], "d": ["//:a"], "w": ["//:a"], "s": []},
+        2: {"a": [], "b": ["//:a"], "c": ["//:a", "//pk:b"], "d": ["//pk/sub:c", "//:a"], "w": [], "s": ["//:a"]},
+        3: {"a": [], "b": ["//:cmd"], "c": ["//:grp"], "d": [], "w": [], "s": []},
     }[shape]
     for pkg, name in EXPS:
         args = [rng.choice([1, "x", True])] if (with_args and rng.random() < 0.5) else None
@@ -24,7 +26,7 @@ def base_project(rng, git=False, with_args=True, extra_kinds=True):
         tasks.append(S.exp_task(pkg, name, deps=deps[name], args=args, options=opts))
     tasks.append(S.exp_task("", "cmd", deps=["//:a"] if shape != 3 else [], kind="run_command"))
     tasks.append(S.exp_task("", "grp", deps=["//:a", "//:d"] if shape != 2 else ["//:a"], kind="group"))
-    tasks.append(S.exp_task("", "all", deps=["//:grp", "//pk/sub:c", "//pk:b", "//:d", "//:cmd", "//w_task_3:w"], kind="group"))
+    tasks.append(S.exp_task("", "all", deps=["//:grp", "//pk/sub:c", "//pk:b", "//:d", "//:cmd", "//w_task_3:w", "//archive-tmp:s"], kind="group"))
     tasks.append(S.exp_task("pk", "comb", deps=["//:a", "//pk:b"], kind="combine"))
     return {"config": "" if git else "disable_git = true\n", "tasks": tasks}
 
